@@ -85,7 +85,10 @@ func goid() int64 {
 var T0 = time.Unix(1_700_000_000, 0).UTC()
 
 // runReady executes one readiness scenario against the real package.
-func runReady(sc RScenario, ca *fakeCA, settle, deadline time.Duration) (out rOutcome) {
+func runReady(sc RScenario, ca *fakeCA, settle, deadline time.Duration) rOutcome {
+	// `out` is written by the goroutines of the scenario; the value returned is a snapshot taken
+	// before the clean-up (an unnamed result: deferred functions and late goroutines cannot alter it)
+	var out rOutcome
 	out.Rets = map[int]string{}
 	var mu sync.Mutex
 	ev := func(s string) {
@@ -322,6 +325,12 @@ func runReady(sc RScenario, ca *fakeCA, settle, deadline time.Duration) (out rOu
 	for k, v := range out.Rets {
 		rets[k] = v
 	}
+	snap := out
+	snap.Events, snap.Rets = evs, rets
+	snap.Kinds = append([]string(nil), out.Kinds...)
+	snap.BeforeRun = append([]int(nil), out.BeforeRun...)
+	snap.Pending = append([]int(nil), out.Pending...)
+	sort.Ints(snap.Pending)
 	mu.Unlock()
 
 	// clean up what can be cleaned up (after the snapshot: calls that return only because of the
@@ -337,9 +346,7 @@ func runReady(sc RScenario, ca *fakeCA, settle, deadline time.Duration) (out rOu
 	for _, c := range cancels {
 		c()
 	}
-	out.Events, out.Rets = evs, rets
-	sort.Ints(out.Pending)
-	return out
+	return snap
 }
 
 func joinInts(p []int) string {
